@@ -102,14 +102,21 @@ def is_model_object(v):
     return t.__module__.startswith("pyvc.models") or t.__name__ in ("BCat",)
 
 
-class GenList(list):
-    """The value of a generator expression: its elements, evaluated eagerly and in order (a list for every model that walks it); next() consumes it from the
-    front like the generator it stands for."""
+class GenList:
+    """The value of a generator expression: LAZY, like the generator it stands for - each element is computed (with its side effects and errors) when the
+    consumer asks for it; a consumer that stops early (any / all / next, a list.extend that fails half way) leaves the rest unevaluated."""
+
+    def __init__(self, gen):
+        self.gen = gen
+
+    def __iter__(self):
+        return self
 
     def __next__(self):
-        if not self:
-            raise StopIteration
-        return self.pop(0)
+        return next(self.gen)
+
+    def close(self):
+        self.gen.close()
 
 
 class LazyGen:
@@ -1865,27 +1872,30 @@ class Interp:
 
     def eval_comprehension(self, e, env, mod):
         T = type(e)
-        out = []
 
-        def rec(i, env2):
+        def rec(i, env2, first=None):
             if i == len(e.generators):
-                out.append((self.eval(e.key, env2, mod), self.eval(e.value, env2, mod)) if T is ast.DictComp else self.eval(e.elt, env2, mod))
+                yield (self.eval(e.key, env2, mod), self.eval(e.value, env2, mod)) if T is ast.DictComp else self.eval(e.elt, env2, mod)
                 return
             g = e.generators[i]
-            for x in self.iterate(self.eval(g.iter, env2, mod)):
+            for x in (first if i == 0 else self.iterate(self.eval(g.iter, env2, mod))):
                 env3 = Env(env2 if isinstance(env2, Env) else None)
                 if not isinstance(env2, Env):
                     env3.update(env2)
                 self.assign(g.target, x, env3, mod)
                 if all(self.truth(self.eval(c, env3, mod)) for c in g.ifs):
-                    rec(i + 1, env3)
+                    yield from rec(i + 1, env3)
 
-        rec(0, env)
+        # (language reference: the iterable of the leftmost `for` is evaluated at once, in the enclosing scope; everything else when the values are asked for)
+        first = self.iterate(self.eval(e.generators[0].iter, env, mod))
+        if T is ast.GeneratorExp:
+            return GenList(rec(0, env, first))
+        out = list(rec(0, env, first))
         if T is ast.DictComp:
             return dict(out)
         if T is ast.SetComp:
             return set(out)
-        return GenList(out) if T is ast.GeneratorExp else out
+        return out
 
     def eval_fstring(self, e, env, mod):
         parts = []
